@@ -190,6 +190,7 @@ def evaluate(sim, scn, reqs, results, stops, status, knobs, stats=None):
                     "stop": kind, "kind": still[0].kind,
                     "signal": stop is not None and stop.controller is not None,
                     "abort_phase": _phase(stop, rr),
+                    "unconsumed_aborted_result": _unconsumed([stop], [rr]),
                     "reaction": stop.reaction if kind == "abort" else "-"},
                     {"request": i, "externals": [e.label for e in still][:5]}))
         # 4. sources closed exactly once
@@ -205,6 +206,7 @@ def evaluate(sim, scn, reqs, results, stops, status, knobs, stats=None):
                             "source": "agen", "last_anext": s.last_anext, "stop": kind,
                             "cause": _cause(rs, stop, rr), "abort_phase": _phase(stop, rr),
                             "stream_announced": list(s.path) in announced_paths,
+                            "unconsumed_aborted_result": _unconsumed([stop], [rr]),
                             "reaction": stop.reaction if kind == "abort" else "-"},
                             {"request": i, "path": list(s.path), "pulls": s.pulls}))
                         break
@@ -220,6 +222,7 @@ def evaluate(sim, scn, reqs, results, stops, status, knobs, stats=None):
                         "source": s.kind, "last_anext": s.last_anext, "stop": kind,
                         "cause": _cause(rs, stop, rr), "abort_phase": _phase(stop, rr),
                         "stream_announced": list(s.path) in announced_paths,
+                        "unconsumed_aborted_result": _unconsumed([stop], [rr]),
                         "reaction": stop.reaction if kind == "abort" else "-"},
                         {"request": i, "path": list(s.path), "pulls": s.pulls}))
                     break
@@ -258,6 +261,8 @@ def evaluate(sim, scn, reqs, results, stops, status, knobs, stats=None):
             "coroutine": qn, "site": await_site(t), "stops": ",".join(kinds),
             "stream_announced": _stream_announced(t, results),
             "abort_phase": ",".join(phases) or "-", "reaction": ",".join(reactions) or "-",
+            "unconsumed_aborted_result": _unconsumed(stops, results),
+            "result_kinds": ",".join(sorted({str(r_.kind) for r_ in results})),
             "signal": any(s is not None and s.controller is not None for s in stops)},
             {"tasks": [getattr(x.get_coro(), "__qualname__", "?") for x in lib_left][:6]}))
     agen_hits = [n for n in sim.loop.finalizer_hits if "agen" in n]
@@ -285,6 +290,13 @@ def _stream_announced(task, results):
     except Exception:  # noqa: BLE001
         pass
     return "?"
+
+
+def _unconsumed(stops, results):
+    """An abort landed in the initial phase and the consumer never pulled aborted_result's
+    stream: the library documents that the cleanup does not run in this case."""
+    return any(_phase(s, r) == "initial" and s.reaction in ("ignore", "await")
+               for s, r in zip(stops, results) if s is not None)
 
 
 def _phase(stop, rr):
